@@ -48,7 +48,7 @@ def wrap_offsets(draw, e, N, prob=3):
 
 
 @st.composite
-def constraint(draw, sp, allow_roots=True):
+def constraint(draw, sp, allow_roots=True, allow_scale=False):
     m = sp["method"]
     N = m["N"]
     mcls = m["cls"]
@@ -59,7 +59,7 @@ def constraint(draw, sp, allow_roots=True):
         gen.leaves_of([d for d in sp["vars"] if d.get("grid", "") != ""])
     globs = gen.leaves_of([d for d in sp["params"] if d.get("grid", "") == ""])
     kind = gen.weighted(draw, [("control", 5), ("integrator", 2), ("roots", 2 if allow_roots else 0), ("point", 3)])
-    n = gen.weighted(draw, [(1, 3), (2, 1)])
+    n = gen.weighted(draw, [(1, 3), (2, 1), (3, 1)])
     c = {}
     if kind == "point":
         lhs = []
@@ -95,8 +95,10 @@ def constraint(draw, sp, allow_roots=True):
         c["grid"] = {"control": draw(st.sampled_from([None, "control"])), "integrator": "integrator", "roots": "integrator_roots"}[kind]
         c["include_first"] = draw(st.sampled_from([True, True, False]))
         c["include_last"] = draw(st.sampled_from([True, True, False]))
-    rel = draw(st.sampled_from(["<=", ">=", "==", "box"]))
+    rel = draw(st.sampled_from(["<=", ">=", "==", "box"] + (["box"] if n > 1 else [])))
     c["rel"] = rel
+    if allow_scale and draw(st.integers(0, 3)) == 0:
+        c["scale"] = [draw(st.sampled_from([0.5, 2.0, 10.0])) for _ in range(n)] if (n > 1 and draw(st.booleans())) else draw(st.sampled_from([0.5, 2.0, 10.0]))
     if rel == "box":
         lo = draw(gen.small())
         c["lb"] = [E.C(lo)]
@@ -104,7 +106,7 @@ def constraint(draw, sp, allow_roots=True):
         if n > 1 and draw(st.booleans()):
             c["lb"] = [E.C(lo), E.C(lo - 0.5)]
             c["ub"] = [E.C(lo + 1.0), E.C(lo + 0.25)]
-        if n > 1 and draw(st.integers(0, 2)) == 0:
+        if n > 1 and draw(st.booleans()):
             # element-wise bounds with some entries infinite (one-sided elements inside a two-sided vector relation)
             lb, ub = [], []
             for i in range(n):
@@ -113,6 +115,8 @@ def constraint(draw, sp, allow_roots=True):
                 lb.append(E.C(float("-inf") if side == "lower-open" else l_i))
                 ub.append(E.C(float("inf") if side == "upper-open" else l_i + 1.0))
             c["lb"], c["ub"] = lb, ub
+            if allow_scale and "scale" not in c and draw(st.booleans()):
+                c["scale"] = [draw(st.sampled_from([0.5, 2.0, 10.0])) for _ in range(n)] if draw(st.booleans()) else draw(st.sampled_from([0.5, 2.0, 10.0]))
     else:
         def bound():
             b = E.C(draw(gen.small()))
@@ -130,7 +134,7 @@ def strategy_(draw):
     cons = []
     have_unplaceable = False
     for _ in range(nc):
-        c = draw(constraint(sp, allow_roots=not have_unplaceable))
+        c = draw(constraint(sp, allow_roots=not have_unplaceable, allow_scale=True))
         if c.get("grid") == "integrator_roots" and sp["method"]["cls"] != "DC":
             have_unplaceable = True
         cons.append(c)
@@ -314,6 +318,10 @@ def check(case, ctx):
         for j in range(len(lists[0])):
             kind = lists[0][j][0]
             vec = np.array([lists[i][j][1] for i in range(K)])
+            if c.get("scale") is not None:
+                # subject_to(..., scale=s): body and bounds divided by s, element-wise
+                sc = c["scale"]
+                vec = vec / (float(sc[lists[0][j][2]]) if isinstance(sc, list) else float(sc))
             if not np.all(np.isfinite(vec)):
                 raise HarnessInconclusive("non-finite reference slack")
             (exp.add_eq if kind == "e" else exp.add_ineq)(vec)
